@@ -29,8 +29,17 @@ LIBRARY = [
 TWIN_LOT = {'id': 10, 'name': 'lipase', 'kind': 'Enzyme', 'mw': '1', 'dens': '1', 'act': '25000'}
 
 
+FACTORY_DENSITY = False      # True: solids / enzymes keep the density the library's factories give them (configured defaults)
+
+
 def make_substance(sd):
     from pyplate import Substance
+    if FACTORY_DENSITY:
+        if sd['kind'] == 'Solid':
+            return Substance.solid(sd['name'], float(sd['mw']))
+        if sd['kind'] == 'Liquid':
+            return Substance.liquid(sd['name'], float(sd['mw']), float(sd['dens']))
+        return Substance.enzyme(sd['name'], f"{sd['act']} U/g")
     if sd['kind'] == 'Solid':
         s = Substance.solid(sd['name'], float(sd['mw']))
         if F(sd['dens']) != 1:
@@ -194,7 +203,11 @@ class Impl:
         raise KeyError(k)
 
     def dump_container(self, c):
+        import math
         cont = {}
+        if not (all(math.isfinite(a) for a in c.contents.values()) and math.isfinite(c.volume)):
+            # an impossible state; kept representable (amounts 0) and marked, the oracles report it
+            return {'t': 'c', 'name': c.name, 'cont': {}, 'order': [], 'vol': F(0), 'max': None, 'nonfinite': repr((dict((s.name, a) for s, a in c.contents.items()), c.volume))}
         for s, a in c.contents.items():
             key = getattr(self, 'bykey', {}).get((s.name, s.specific_activity, s.mol_weight, s.density), self.byname.get(s.name, -1))
             cont[key] = cont.get(key, F(0)) + F(a)
